@@ -50,6 +50,7 @@ MODEL_FREE_VARIANTS = [
     ("hyperband", {"searcher": "random", "type": "cost_promotion"}, "hyperband_random"),
     ("synchb", {"searcher": "random"}, "synchb_random"),
     ("dehb", {}, "dehb"),
+    ("dehb", {"searcher": "random"}, "dehb"),
     ("pbt", {}, "pbt"),
     ("msr", {}, "msr"),
 ]
@@ -76,6 +77,8 @@ def gen_sched_case(rng, variant, gp=False, profile=False):
         p["max_t"] = rng.choice([4, 9, 9, 16, 27])
         p["rf"] = rng.choice([2, 3, 3, 4])
         p["grace"] = rng.choice([1, 1, 2])
+        if p.get("type") == "pasha":
+            p["max_t"], p["rf"] = rng.choice([(9, 3), (16, 2), (27, 3), (9, 2)])   # PASHA needs >= 3 rung levels
         if kind == "hyperband":
             # PASHA supports a single bracket only (IndexError otherwise)
             p["brackets"] = 1 if p.get("type") == "pasha" else rng.choice([1, 1, 2, 3])
@@ -112,6 +115,8 @@ def gen_sched_case(rng, variant, gp=False, profile=False):
                 workers=rng.choice([1, 2, 3, 4]), steps=rng.choice([18, 30] if gp else [25, 60, 120]),
                 interleave=(not gp), other_kinds=OTHER_KINDS if not gp else [], profile=profile,
                 ties=rng.random() < 0.3, p_fail=rng.choice([0.0, 0.05, 0.15]))
+    if kind in ("fifo", "hyperband", "pbt", "msr") and not gp and rng.random() < 0.15:
+        case["no_clock"] = True     # no TimeKeeper passed: the real clock must not influence suggestions / decisions
     return case
 
 
@@ -125,6 +130,8 @@ def gen_sim_case(rng):
                num_seeds=rng.choice([1, 3]), backend_seed=None, max_trials=rng.choice([6, 12, 20]),
                workers=rng.choice([1, 2, 4]))
     sim["backend_seed"] = rng.randrange(sim["num_seeds"])
+    if sim["params"].get("type") == "pasha":
+        sim["max_t"] = 9
     return dict(kind="sim", config="sim_experiment", sim=sim)
 
 
@@ -218,6 +225,7 @@ def judge(ctx, case, ra, rb, hashseeds, facts=None, funcmap=None):
         nontrivial = kinds.get("start", 0) >= 2 and kinds.get("result", 0) >= 3 and ra.get("error") is None
         ctx.count(("sched", case), nontrivial=nontrivial)
         ctx.h("variant", "%s/%s" % (sig["scheduler"], sig["variant"]))
+        ctx.h("clock", "real (no TimeKeeper)" if case.get("no_clock") else "scripted TimeKeeper")
         ctx.h("trace_len", min(len(tr) // 20 * 20, 120))
         for k in ("start", "resume", "result", "error", "complete"):
             ctx.h("events", k, kinds.get(k, 0))
@@ -466,9 +474,9 @@ def run(ctx, replay=None):
             ctx.notes.append("proof step broken; reachable effect sites not covered by the allow-lists of props/C11.v: "
                              + "; ".join("%s: %s %s (%s)" % s for s in sites[:12]))
 
-    n_mf = ctx.n(6, 60)
-    n_gp = ctx.n(2, 12)
-    n_sim = ctx.n(6, 40)
+    n_mf = ctx.n(14, 80)
+    n_gp = ctx.n(4, 16)
+    n_sim = ctx.n(10, 60)
     cases = list(corpus)
     for v in MODEL_FREE_VARIANTS:
         k = n_mf * (4 if v[2] in boost else 1)
@@ -484,7 +492,7 @@ def run(ctx, replay=None):
     ctx.sample(dict(kind="twin GP case", case={k: v for k, v in gp_cases[0].items() if k != "other_kinds"}))
     ctx.sample(dict(kind="twin simulated experiment", case=sim_cases[0]))
 
-    batches = batches_of(gp_cases, 6) + batches_of(cases, 4) + batches_of(sim_cases, 2)
+    batches = batches_of(gp_cases, ctx.n(6, 12)) + batches_of(cases, ctx.n(4, 10)) + batches_of(sim_cases, ctx.n(2, 4))
     results = run_twins(batches, hashseeds, jobs=ctx.n(8, 16))
     for cs, (ra, rb) in zip(batches, results):
         for c, a, b in zip(cs, ra, rb):
